@@ -2,6 +2,7 @@ SPECIFICATION Spec
 CONSTANTS
   P = 3
   K = 2
+  Fails = {}
   Nested = FALSE
   WaitFirst = TRUE
   Synchronised = TRUE
